@@ -298,6 +298,22 @@ func c17ReadOnly(sh *explore.Shard) {
 							Case: caseJSON(idx, map[string]any{"mode": m.name, "args": args}), Detail: string(firstOut) + "\n-----\n" + string(res.Stdout)})
 					}
 				}
+				// auxiliary: the same run under the race detector, free-running
+				// (a report is a genuine race; silence proves nothing)
+				if mi == 0 {
+					for k := 0; k < 3; k++ {
+						cmd := exec.Command("/verif/.build/git-sizer-race", args...)
+						cmd.Dir = work
+						cmd.Env = append(realgit.CleanEnv("/nonexistent-home"), fmt.Sprintf("GOMAXPROCS=%d", []int{2, 16, 4}[k]), "GORACE=halt_on_error=0")
+						var eb bytes.Buffer
+						cmd.Stderr = &eb
+						cmd.Run()
+						sh.C.Add("race_detector_runs", 1)
+						if bytes.Contains(eb.Bytes(), []byte("WARNING: DATA RACE")) {
+							sh.C.Violate(explore.Violation{Property: "C17", Class: "race", Msg: fmt.Sprintf("the race detector reports a data race (args %v): %s", args, tailBytes(eb.Bytes(), 1500)), Case: caseJSON(idx, map[string]any{"args": args})})
+						}
+					}
+				}
 				after := snapshot(dir)
 				if d := diffSnap(before, after); d != "" {
 					sh.C.Violate(explore.Violation{Property: "C17", Class: "modified", Msg: fmt.Sprintf("mode %q, args %v: the repository was modified: %s", m.name, args, d), Case: caseJSON(idx, map[string]any{"mode": m.name, "args": args})})
@@ -401,6 +417,6 @@ func c17Parent(prop, tier string) int {
 
 func init() {
 	Registry["C17"] = &Check{Level: "model_checking", Worker: c17Worker, Parent: c17Parent, QuickBudget: 90 * time.Second, ThoroughBudget: 15 * time.Minute,
-		Rule: "(part 2, deciding determinism over schedules) the real ScanRepositoryUsingGraph, CollectReferences, obj_iter.go, batch_obj_iter.go, ref_iter.go and the verbatim go-pipe pipeline/function/scanner code, mechanically rewritten from their current text so that every mutex, atomic, channel operation, select, close, context cancellation, go statement and pipe read/write is a scheduling point; threads: main, the two feeder goroutines, every pipeline stage goroutine and the model git processes; ALL schedules with at most 2 (quick; 1 for the fault bodies) / 3 (thorough) deviations from the default schedule for 3 fault-free bodies (whole records; 7-byte writes with per-record flushing; 1030 blobs with two equal maxima, bound 1) and 6 single-fault bodies; oracle: every schedule yields the same HistorySize JSON (numbers = oracle, same cited objects and descriptions), no deadlock, no panic, and with a fault an error in every schedule. (part 1, read-only) real binary + real git: 2 repositories x 6 argument vectors x 8 addressing modes: snapshot (mode, size, mtime-ns, SHA-256) of git dir, work tree, index and linked worktree identical before and after; 6 repeated runs with GOMAXPROCS 1..16 give byte-identical stdout; thorough additionally traces the run with strace -f and rejects any successful write-type system call on a path inside the repository; the git commands issued (model git log) stay within the read-only plumbing whitelist. states = distinct observations over schedules; transitions = scheduling steps",
+		Rule: "(part 2, deciding determinism over schedules) the real ScanRepositoryUsingGraph, CollectReferences, obj_iter.go, batch_obj_iter.go, ref_iter.go and the verbatim go-pipe pipeline/function/scanner code, mechanically rewritten from their current text so that every mutex, atomic, channel operation, select, close, context cancellation, go statement and pipe read/write is a scheduling point; threads: main, the two feeder goroutines, every pipeline stage goroutine and the model git processes; ALL schedules with at most 2 (quick; 1 for the fault bodies) / 3 (thorough) deviations from the default schedule for 3 fault-free bodies (whole records; 7-byte writes with per-record flushing; 1030 blobs with two equal maxima, bound 1) and 6 single-fault bodies; oracle: every schedule yields the same HistorySize JSON (numbers = oracle, same cited objects and descriptions), no deadlock, no panic, and with a fault an error in every schedule. (part 1, read-only) real binary + real git: 2 repositories x 6 argument vectors x 8 addressing modes: snapshot (mode, size, mtime-ns, SHA-256) of git dir, work tree, index and linked worktree identical before and after; 6 repeated runs with GOMAXPROCS 1..16 give byte-identical stdout; thorough additionally traces the run with strace -f and rejects any successful write-type system call on a path inside the repository; the git commands issued (model git log) stay within the read-only plumbing whitelist; auxiliary: 3 free-running runs per case of a -race build (a report is a violation, silence is not evidence). states = distinct observations over schedules; transitions = scheduling steps",
 		Assumptions: []string{"race-freedom is not decided by schedule enumeration (scheduling points sit at synchronisation operations); repeated free-running runs are sampling and are reported as such", "the model git processes are threads whose only interaction is through their pipes"}}
 }
